@@ -126,6 +126,15 @@ class AbstractFileSystem(DictType):
         self.fmtime[_key] = self.get_mtime(fname)
 
     def __delitem__(self, key):
+        # files and the cache are named by the converted key, as in __setitem__/__getitem__
+        self._remove(self.key_conv.serialize(key))
+
+    def _remove(self, key):
+        """
+        Removes the file named key, its lock file and the cached value.
+
+        :param key: A file name, that is an already converted key
+        """
         fname = os.path.join(self.fdir, key)
         if fname.endswith(".lock"):
             if os.path.isfile(fname):
@@ -257,7 +266,7 @@ class AbstractFileSystem(DictType):
             return
 
         for f in os.listdir(self.fdir):
-            del self[f]
+            self._remove(f)
 
     def update(self, ava):
         """
